@@ -139,7 +139,7 @@ type X struct {
 	entry    *State
 	params   map[string]Val
 	loopOrd  map[*ssa.BasicBlock]int
-	walkOrd  int
+	walkIdx  map[ssa.Value]int
 	inlined  map[string]bool
 	externs  map[string]bool
 	assumed  map[string]bool
@@ -220,7 +220,7 @@ func (x *X) mk(s *State, prefix string, t types.Type, wrap wrapFn, inAgg bool) V
 	}
 	if n == tyAuction {
 		if inAgg {
-			return Opq{"AuctionI inside aggregate"}
+			return x.auctionRecord(s, prefix, wrap) // below an array layer auctions are union records
 		}
 		return x.mkAuction(s, prefix)
 	}
@@ -257,7 +257,7 @@ func (x *X) mk(s *State, prefix string, t types.Type, wrap wrapFn, inAgg bool) V
 	case *types.Slice:
 		l := x.sym(prefix+".len", wrap("Int"))
 		el := x.mk(s, prefix+".e", u.Elem(), func(so string) string { return wrap(arrSort("Int", so)) }, true)
-		if !inAgg {
+		if !inAgg || wrap("Int") == "Int" {
 			s.assume(fmt.Sprintf("(and (<= 0 %s) (< %s 281474976710656))", l, l))
 		}
 		return Sl{0, l, el}
@@ -347,6 +347,20 @@ func (x *X) zero(s *State, t types.Type, wrap wrapFn) Val {
 		return Er{"true", "0"}
 	}
 	if namedOf(t) == tyAuction {
+		if wrap("Int") != "Int" {
+			// below an array layer auctions are union records
+			rec := St{map[string]Val{"Kind": Sc{T: cst("Int", "0"), Sort: wrap("Int")}}}
+			rec.F["Base"] = x.zero(s, x.V.lookupType("BaseAuction"), wrap)
+			for _, tn := range []string{"FixedPriceAuction", "BatchAuction"} {
+				st := x.V.lookupType(tn).Underlying().(*types.Struct)
+				for i := 0; i < st.NumFields(); i++ {
+					if f := st.Field(i); f.Name() != "BaseAuction" {
+						rec.F[f.Name()] = x.zero(s, f.Type(), wrap)
+					}
+				}
+			}
+			return rec
+		}
 		return Iface{Kind: "0", V: Ptr{0, nil}}
 	}
 	switch u := t.Underlying().(type) {
@@ -445,6 +459,18 @@ func (x *X) constVal(s *State, c *ssa.Const) Val {
 
 func (x *X) flat(s *State, v Val) Val {
 	switch y := v.(type) {
+	case Iface:
+		// an AuctionI stored into a slice / array / map is kept as its union record (by value: later writes through the
+		// object are not reflected in the stored copy; the module never reads an element again after mutating the object)
+		if y.Kind != "" {
+			if p, ok := y.V.(Ptr); ok && p.Obj != 0 {
+				like := x.auctionRecord(s, "like", idWrap)
+				rec := x.auctionToRecord(s, y, like)
+				rec.F["Kind"] = Sc{T: y.Kind, Sort: "Int"}
+				return rec
+			}
+		}
+		return v
 	case Sl:
 		if y.ID == 0 {
 			if y.Elem == nil {
@@ -471,6 +497,16 @@ func (x *X) slElem(s *State, sl Sl) Val {
 }
 
 func (x *X) load(s *State, p Val, t types.Type) Val {
+	v := x.load0(s, p, t)
+	if rec, ok := v.(St); ok && t != nil && namedOf(t) == tyAuction {
+		if k, has := rec.F["Kind"]; has {
+			return x.auctionFromRecord(s, rec, tm(k))
+		}
+	}
+	return v
+}
+
+func (x *X) load0(s *State, p Val, t types.Type) Val {
 	switch q := p.(type) {
 	case Ptr:
 		if q.Obj == 0 {
@@ -1087,12 +1123,17 @@ func (x *X) step(s *State, in ssa.Instruction) bool {
 			at := i.X.Type().Underlying().(*types.Pointer).Elem().Underlying().(*types.Array)
 			opaque, ifaces := false, IfaceArr{map[int]Iface{}}
 			_, elemIsIface := at.Elem().Underlying().(*types.Interface)
+			if namedOf(at.Elem()) == tyAuction {
+				elemIsIface = false
+			}
 			for k := 0; k < n; k++ {
 				switch e := arr.F[fmt.Sprint(k)].(type) {
 				case Opq:
 					opaque = true
 				case Iface:
-					ifaces.E[k] = e
+					if namedOf(at.Elem()) != tyAuction {
+						ifaces.E[k] = e
+					}
 				default:
 					if elemIsIface {
 						ifaces.E[k] = Iface{V: e}
@@ -1468,9 +1509,13 @@ func (x *X) opqNil(s *State, o Opq) string {
 func (x *X) convert(s *State, i *ssa.Convert) Val {
 	v := x.val(s, i.X)
 	from, to := i.X.Type(), i.Type()
-	if _, _, ok := intRange(to); ok {
-		if _, _, ok2 := intRange(from); ok2 {
-			return Sc{T: wrapInt(tm(v), to), Sort: "Int"}
+	if tb, ts, ok := intRange(to); ok {
+		if fb, fs, ok2 := intRange(from); ok2 {
+			// widening conversions keep the value; narrowing ones must stay in range (obligation, like overflow)
+			if (fs == ts && fb <= tb) || (!fs && ts && fb < tb) {
+				return Sc{T: tm(v), Sort: "Int"}
+			}
+			return x.machineArith(s, tm(v), to)
 		}
 	}
 	if scalarSort(from) == "Str" && scalarSort(to) == "Str" {
